@@ -267,16 +267,18 @@ fn check_report(rep: &str, m: &Maps, tb: &Tables, via: &str, c11: bool, out: &mu
         if v_part {
             // a generator called directly for a category without findings may render an overview with total 0 or nothing
             let nothing = via == "vulnerability_report" && !v_has && shown_v == 0 && tot_v.is_empty();
-            if !nothing && (tot_v.len() != 1 || tot_v[0] != shown_v) {
-                push(format!("{}:total-vulnerabilities", via), format!("one total equal to the {} entries listed in the vulnerability part", shown_v), format!("{:?}", tot_v));
+            // the total may be printed more than once (a table of contents that repeats the overview heading): every
+            // printed total must equal the number of entries
+            if !nothing && (tot_v.is_empty() || tot_v.iter().any(|t| *t != shown_v)) {
+                push(format!("{}:total-vulnerabilities", via), format!("a total equal to the {} entries listed in the vulnerability part", shown_v), format!("{:?}", tot_v));
             }
         } else if via == "generate_report" && (!tot_v.is_empty()) {
             push(format!("{}:vulnerability-part-without-findings", via), "no vulnerability part".into(), format!("totals {:?}", tot_v));
         }
         if o_part {
             let nothing = via == "optimization_report" && !o_has && shown_o == 0 && tot_o.is_empty();
-            if !nothing && (tot_o.len() != 1 || tot_o[0] != shown_o) {
-                push(format!("{}:total-optimizations", via), format!("one total equal to the {} entries listed in the optimization part", shown_o), format!("{:?}", tot_o));
+            if !nothing && (tot_o.is_empty() || tot_o.iter().any(|t| *t != shown_o)) {
+                push(format!("{}:total-optimizations", via), format!("a total equal to the {} entries listed in the optimization part", shown_o), format!("{:?}", tot_o));
             }
         } else if via == "generate_report" && (!tot_o.is_empty()) {
             push(format!("{}:optimization-part-without-findings", via), "no optimization part".into(), format!("totals {:?}", tot_o));
